@@ -124,6 +124,37 @@ def longOutcome (f pre : String) (multiByte : Bool) : Out :=
     -- signature with a long name: success
     | _ => .ok ()
 
+/-- classes `loaded_<doc>[_<variant>]`: the sketch handle comes from `signatures_load_buffer` +
+    `signature_first_mh` on a document the reader accepts although no writer produces it (fewer / more
+    abundances than mins, mins out of order or repeated, no mins next to abundances, num and max_hash
+    both set, more mins than num, mins above max_hash, abundances near 2^64, a wrong md5sum field);
+    the variant is the hash argument (`first` / `last` / `absent`) or the second operand (`self` = a
+    second copy of the same loaded object, `other` = a well-formed loaded sketch with the same header). -/
+def loadedClass (cls : String) : Option (String × String) :=
+  match cls.splitOn "_" with
+  | ["loaded", doc] => some (doc, "")
+  | ["loaded", doc, var] => some (doc, var)
+  | _ => none
+
+/-- what the body does on a loaded object: reading pairs mins and abundances up (both cut to the shorter
+    list) and sorts them, so every loaded sketch is an ordinary one - possibly with repeated hashes, more
+    hashes than `num`, hashes above `max_hash`, abundances that overflow on the next addition -/
+def loadedOutcome (f doc var : String) : Out :=
+  let e (k : K) : Out := .err k
+  let noAb := ["noab", "dupsnoab"].contains doc
+  let empty := ["emptymins", "shortab0"].contains doc
+  let huge := doc == "hugeab"
+  match f with
+  | "kmerminhash_get_abunds" => if noAb then .panic else .ok ()
+  | "kmerminhash_enable_abundance" | "kmerminhash_hash_function_set" => if empty then .ok () else e .NonEmptyMinHash
+  -- `abunds[pos] += abundance` on an abundance at 2^64 - 1 (overflow checks are on in the harness build)
+  | "kmerminhash_add_hash" | "kmerminhash_add_hash_with_abundance" => if huge && var != "absent" then .panic else .ok ()
+  | "kmerminhash_add_many" | "kmerminhash_set_abundances" | "kmerminhash_merge" | "kmerminhash_add_from" =>
+    if huge then .panic else .ok ()
+  | "kmerminhash_angular_similarity" => if noAb then e .NeedsAbundanceTracking else if huge then .panic else .ok ()
+  | "kmerminhash_similarity" => if huge then .panic else .ok ()
+  | _ => .ok ()
+
 /-- what the body of export `f` does on in-contract arguments of class `cls`
     (read off the native API: which `Err` it returns, where it panics) -/
 def bodyOutcome (f cls : String) : Out :=
@@ -131,6 +162,9 @@ def bodyOutcome (f cls : String) : Out :=
   let isIn (l : List String) := l.contains cls
   match longClass cls with
   | some (pre, mb) => longOutcome f pre mb
+  | none =>
+  match loadedClass cls with
+  | some (doc, var) => loadedOutcome f doc var
   | none =>
   match f with
   -- helpers / error channel
